@@ -1273,3 +1273,17 @@ def _register_shared_round9():
 
 
 # _register_shared_round9() is called by the driver after this module is fully imported (no import cycles)
+
+
+# "no pair is ever lost": every patch-pair task and every tree build handed to the job iterator is executed exactly once (C05 units on the
+# job iterators), and the trees are built for every patch of a catalog (C05 unit on Catalog.build_trees)
+def _register_shared_tasks():
+    from . import C05 as _C05
+    unit(P, "_multiprocessing_iter_unordered", fuc=["yaw.utils.parallel:_multiprocessing_iter_unordered"],
+         cases=[dict(seq=True, unpack=False), dict(seq=False, unpack=False)], trusted=["Pool.imap_unordered"])(_C05.u_mp_iter)
+    unit(P, "iter_unordered", fuc=["yaw.utils.parallel:iter_unordered", "yaw.utils.parallel:get_size"], cases=[dict(given=False), dict(given=True)])(_C05.u_iter_unordered)
+    unit(P, "Catalog.build_trees", fuc=["yaw.catalog.catalog:Catalog.build_trees"],
+         cases=[dict(binned=b, repeated=False) for b in (False, True)], trusted=["iter_unordered contract"])(_C05.u_cat_build_trees)
+
+
+# _register_shared_tasks() is called by the driver after this module is fully imported (no import cycles)
